@@ -26,6 +26,8 @@ def gen_ops(rng, tree, nmin=1, nmax=6, sv_rate=0.1, dry_rate=0.2, show_rate=0.25
 
 
 def project_probes(ctx, project):
+    if project.get("style", {}).get("foreign_section"):
+        ctx.probe("config_shared_with_bumpversion")
     for f in project["files"]:
         ctx.probe("file_regime_" + f.get("regime", "lf"))
         if f.get("shared_lines"):
@@ -44,6 +46,8 @@ def project_probes(ctx, project):
             ctx.probe("respelled_path_key")
         if f.get("glob_group"):
             ctx.probe("recursive_glob_group")
+        if f.get("extra_entry"):
+            ctx.probe("group_file_with_entry_of_its_own")
         if f["lines"] and f["lines"][-1]["end"] == "":
             ctx.probe("no_final_newline")
         if f["lines"] and f["lines"][0]["segs"] and isinstance(f["lines"][0]["segs"][0], str) and \
@@ -100,7 +104,8 @@ class Life:
     def gen(self, seed, index, tier):
         rng = runner.rng_for(seed, self.name, index)
         vcs = self.vcs
-        project = layouts.gen_project(rng, mode=self.mode, allow_mixed=self.allow_mixed, vcs=vcs, family=self.family,
+        mode = self.mode if self.mode != "mix" else ("bytes" if rng.random() < 0.3 else "plain")
+        project = layouts.gen_project(rng, mode=mode, allow_mixed=self.allow_mixed, vcs=vcs, family=self.family,
                                       pep_any=self.pep_any, force_pep=self.force_pep, zero_bid=self.zero_bid,
                                       legacy=(self.family == "legacy"))
         if project["vcs"] is not None:
